@@ -243,13 +243,12 @@ fn run_t(table: char, line: usize, v6: bool, bytes: &[u8]) -> String {
             let idx = |q: &String| ALL_QUIRKS.iter().position(|x| x.to_string() == *q).unwrap_or(99);
             let k4 = oq.windows(2).any(|w| idx(&w[0]) >= idx(&w[1]));
             let k1 = g.layout.iter().any(|o| matches!(o, TcpOption::Eol(n) if *n > 0));
-            let kv6 = s.quirks.iter().any(|q| !quirk_applies(g.v6, q));
             let k5 = g.bad || (g.ns && g.tos_ecn == 0 && g.flags & 0xc0 == 0);
             // K7: the code's last MTU divisor (MSS + header words / + 40) against the documented MSS + minimal headers
             let k7 = g.mss.map(|m| { let w = g.win as u32; let a = m as u32 + if g.v6 { 40 } else { (20 + g.olen as u32) / 4 }; let b = m as u32 + if g.v6 { 60 } else { 40 };
                                      w != 0 && ((a != 0 && w % a == 0) != (w % b == 0)) }).unwrap_or(false);
             let adm = tb == table && verdict(own_entries, own, got, |x| conforms_tcp(table, x, &g));
-            if !adm && !(k1 || k4 || k5 || k7 || kv6) {
+            if !adm && !(k1 || k4 || k5 || k7) {
                 out.push_str(&format!("\t!signature on line {} is not reachable by this conforming packet: best match {}", line, out.split('\t').next().unwrap()));
             }
         }
